@@ -18,21 +18,24 @@ SMALL_ONLY = {'bn_gen_prime_small', 'bn_factor', 'cp_rsa_gen_small'}
 
 
 def gen_plan(rng, tier, config, opts):
-    lines = ['relic-sim-plan 1', 'engine allocsim', 'config D']
+    lines = ['relic-sim-plan 1', 'engine allocsim', 'config ' + config]
+    capacity = config != 'D'        # static allocation: the fault is exhausting the configured precision
     # ops are drawn round-robin over the table first (so a quick run touches every op), then at random
     idx = opts.get('_index')
-    nops = 1
+    nops = 1 if not capacity else 6
     for j in range(nops):
         name, pc = OPS[rng.below(len(OPS))]
         curve = 'BN_P256' if (pc or rng.chance(0.35)) else rng.choice(CURVES)
         lines.append('CURVE ' + curve)
-        size = rng.choice(SIZES)
-        if name.startswith('bn_mul') or name.startswith('bn_sqr') or name in ('bn_lcm',):
+        size = rng.choice(SIZES + (['full', 'full', 'edge', 'edge', 'over', 'big'] if capacity else []))
+        if not capacity and (name.startswith('bn_mul') or name.startswith('bn_sqr') or name in ('bn_lcm',)):
             if size == 'full':
                 size = 'big'
+        if name in SMALL_ONLY and size in ('edge', 'over'):
+            size = 'full'
         maxk = 24 if tier == 'quick' else 20000
-        ln = 'OP %s seed=%s size=%s fail=all max=%d pick=%d fill=%d,%d' % (
-            name, rng.bytes(8).hex(), size, maxk, rng.below(1 << 30), rng.below(1 << 30), rng.below(1 << 30))
+        ln = 'OP %s seed=%s size=%s fail=%s max=%d pick=%d fill=%d,%d' % (
+            name, rng.bytes(8).hex(), size, 'none' if capacity else 'all', maxk, rng.below(1 << 30), rng.below(1 << 30), rng.below(1 << 30))
         if rng.chance(0.2):
             ln += ' pair=%d' % (1 + rng.below(1000))
         lines.append(ln)
@@ -73,6 +76,14 @@ def check(plan, transcript, config, opts):
             if d['thrown'] != '0' or d['code'] != '0':
                 out.probe('baseline-reports-error')
             out.probe('allocations-counted', int(d['A']))
+            if d['thrown'] != '0' or d['code'] != '0':
+                out.fault('precision-or-argument-error-reported')
+        elif f[0] == 'POST':
+            d = kv(f)
+            out.evals += 1
+            if d['probe'] != '1':
+                out.violate('C08', 'C08|unusable-after-error|%s' % cur,
+                            '%s: after the call (which %s) the fixed usability probe no longer gives its reference output' % (cur, 'reported an error' if d['code'] == '1' else 'returned normally'))
         elif f[0] == 'K':
             d = kv(f)
             out.evals += 1
